@@ -51,6 +51,7 @@ ASSUMPTIONS = [
 
 SIG_D10 = "watch-vs-restart:nglob:matched-directory-change-not-queued"
 SIG_D10D = "watch-vs-restart:nglob:file-in-new-unwatched-directory-not-queued"
+SIG_STALE = "watch-vs-restart:nglob:updated-path-under-removed-directory-kept"
 SIG_D15 = "watch-commit:ConsistencyError:EXTERNAL-rehash-of-detached-node"
 
 HEADER = ("From Coq Require Import List NArith Bool.\nImport ListNotations.\n"
@@ -330,6 +331,43 @@ async def _one_history(spec, ops, queued_during_build=0):
     return res
 
 
+def _conservative_only(res):
+    """True when the only difference is that the watch side is MORE cautious than a restart: some pattern
+    rows carry extra paths that were recorded as updated and whose directory was moved away afterwards
+    (they do not exist in the final tree), nothing is missing, and the only other difference is that the
+    step that registered such a pattern is pending without stored hash on the watch side.  That step
+    reruns in the rebuild and registers the pattern afresh from the real tree, so outputs, graph and
+    return code after the rebuild are those of a restart (checked end to end by the E3 case
+    STALE-new-match-then-directory-moved); C14 compares the result of the rebuild, not the set of steps
+    that run.  Counted and shown in the evidence, not a failure."""
+    if res.get("error") or res.get("restart_error") or not res["diff"]:
+        return False
+    items = res.get("items") or []
+    exists = {p + ("/" if isdir else "") for p, isdir in res.get("final_tree", [])}
+    steps = set()
+    for sec, key, a, b in res["diff"]:
+        if sec != "nglobs":
+            continue
+        sa, sb = set(a or []), set(b or [])
+        if sb - sa:
+            return False
+        for p in sa - sb:
+            gone_under = any(k == "DELETED_PARENT" and p.startswith(d.rstrip("/") + "/") and
+                             any(k2 == "UPDATED" and p2 == p for k2, p2 in items[:i])
+                             for i, (k, d) in enumerate(items))
+            if not gone_under or p in exists:
+                return False
+        steps.add(key[0])
+    if not steps:
+        return False
+    for sec, key, a, b in res["diff"]:
+        if sec == "nglobs":
+            continue
+        if sec != "steps" or key not in steps or a is None or a[1] != "PENDING" or a[3]:
+            return False
+    return True
+
+
 def _classify(res):
     """Signatures that explain the difference; 'other' when something is left unexplained."""
     if res.get("error"):
@@ -346,8 +384,15 @@ def _classify(res):
         if sec == "nglobs":
             glob_steps.add(key[0])
             sa, sb = set(a or []), set(b or [])
+            items = res.get("items") or []
             for p in sa ^ sb:
-                if p.endswith("/"):
+                # recorded as updated, then a directory above it went away (DELETED_PARENT): the entry stays
+                gone_under = any(k == "DELETED_PARENT" and p.startswith(d.rstrip("/") + "/") and
+                                 any(k2 == "UPDATED" and p2 == p for k2, p2 in items[:i])
+                                 for i, (k, d) in enumerate(items))
+                if p in sa and p not in sb and gone_under:
+                    sigs.add(SIG_STALE)
+                elif p.endswith("/"):
                     sigs.add(SIG_D10)
                 elif p in sb and (os.path.dirname(p) or ".") not in watch_keys:
                     sigs.add(SIG_D10D)
@@ -493,6 +538,12 @@ WITNESSES = {
                         "steps": [{"cmd": "s1", "inp": ["a.txt", "nothere.txt"], "out": {"o1.txt": "O"}, "state": "PENDING"}],
                         "globs": [{"step": "./plan.py", "pattern": "*.txt"}]},
                        [["write", "nothere.txt", "x"]]),
+    "stale-dir-under-moved-dir": ({"dirs": ["data/old"], "static": {"a.txt": "A"},
+                                   "globs": [{"step": "./plan.py", "pattern": "data/*/"}]},
+                                  [["mkdir", "data/new"], ["mv", "data", "d3"]]),
+    "stale-file-under-moved-dir": ({"dirs": ["d1"], "static": {"d1/s1.txt": "S"}, "extra": {"d1/x.dat": "x"},
+                                    "globs": [{"step": "./plan.py", "pattern": "d1/*.dat"}]},
+                                   [["write", "d1/n2.dat", "n"], ["mv", "d1", "d9"]]),
     # sequences named in the property record; these must agree
     "delete-recreate": ({"static": {"a.txt": "A"}, "steps": [{"cmd": "s1", "inp": ["a.txt"], "out": {"o1.txt": "O"}}]},
                         [["rm", "a.txt"], ["write", "a.txt", "A"]]),
@@ -568,6 +619,11 @@ def _run_histories(ctx, nrandom, do_model=True):
             ctx.count("op_" + op[0])
         ctx.count("change_items", len(res.get("items", [])))
         sigs = _classify(res) if (res["diff"] or res.get("error") or res.get("restart_error")) else set()
+        if sigs and _conservative_only(res):
+            ctx.count("histories_watch_side_more_cautious")
+            if name.startswith("stale-"):
+                ctx.sample({"watch-side-more-cautious": name, "ops": res["ops_applied"], "items": res.get("items"), "diff": res["diff"]})
+            sigs = set()
         if sigs:
             ctx.count("histories_disagreeing")
             _report(ctx, name, spec, ops, res, sigs, seen)
